@@ -13,6 +13,7 @@ FACTX_FRAMES = os.path.join(core.VERIF, "go", "factx_frames")
 class C10(Spec):
     prop = "C10"
     needs_factx = True
+    extra_generated = ["Frames.lean"]
     lean_modules = ["SonicSpec.Props.C10"]
     level = "proof"
     rule = ("pc-value tables: GetPcspTable-shaped and random well-formed tables (varint length boundaries 127/128, 16383/16384, "
